@@ -227,6 +227,47 @@ for _n in range(-8, 9):
             _PI_MULT[math.pi * _n / _d] = Fraction(_n, _d)
 
 
+_RECOGNISERS = []
+
+
+class float_recogniser:
+    """context manager: while active, float constants are offered to `fn(float) -> term | None` first.
+    Used to read table floats such as 0.7071067811865476 as sqrt(1/2) (justified by a ground table contract)."""
+
+    def __init__(self, fn):
+        self.fn = fn
+
+    def __enter__(self):
+        _RECOGNISERS.append(self.fn)
+        return self
+
+    def __exit__(self, *a):
+        _RECOGNISERS.remove(self.fn)
+        return False
+
+
+def sqrt_rational_recogniser(max_den=10**7, ulps=4):
+    """float x -> +-sqrt(p/q) if |x| is within `ulps` ulp of sqrt(p/q) for a small rational p/q (else None)"""
+
+    def rec(x):
+        if x == 0:
+            return None
+        fx = Fraction(x)
+        sq = fx * fx
+        r = sq.limit_denominator(max_den)
+        if r <= 0:
+            return None
+        approx = math.sqrt(r.numerator / r.denominator) if r.denominator else 0
+        if abs(approx - abs(x)) <= ulps * abs(x) * 2.0**-52:
+            # exact check on squares: |x^2 - r| <= 2*ulps*2^-52 * r
+            if abs(sq - r) <= r * Fraction(2 * ulps + 1, 2**52):
+                t = sqrt_const(r)
+                return t if x > 0 else neg(t)
+        return None
+
+    return rec
+
+
 def lift(o):
     """python number -> term"""
     if isinstance(o, T):
@@ -242,6 +283,10 @@ def lift(o):
             return mul(const(_PI_MULT[o]), PI)
         if o != o or o in (math.inf, -math.inf):
             raise ValueError("non-finite float constant in symbolic execution: %r" % o)
+        for rec in _RECOGNISERS:
+            r = rec(o)
+            if r is not None:
+                return r
         return const(Fraction(repr(o)))
     try:
         import numpy as np
@@ -344,15 +389,45 @@ def div(a, b):
     return T("/", (a, b), "R")
 
 
+def _prime_factors(n):
+    out = {}
+    d = 2
+    while d * d <= n:
+        while n % d == 0:
+            out[d] = out.get(d, 0) + 1
+            n //= d
+        d += 1
+    if n > 1:
+        out[n] = out.get(n, 0) + 1
+    return out
+
+
+def sqrt_const(q):
+    """sqrt of a non-negative rational as  rational * prod sqrt(prime)  (canonical: the sqrt(p) are independent over Q)"""
+    n, d = q.numerator, q.denominator
+    # sqrt(n/d) = sqrt(n*d)/d
+    m = n * d
+    if m == 0:
+        return ZERO
+    if m > 10**24:
+        return T("sqrt", (const(q),), "R")
+    outside = 1
+    t = None
+    for p, e in sorted(_prime_factors(m).items()):
+        outside *= p ** (e // 2)
+        if e % 2:
+            sp = T("sqrt", (const(Fraction(p)),), "R")
+            t = sp if t is None else mul(t, sp)
+    c = const(Fraction(outside, d))
+    return c if t is None else mul(t, c)
+
+
 def sqrt_(a):
     a = _l(a)
     if a.op == "c":
         q = a.args[0]
         if q >= 0:
-            n, d = q.numerator, q.denominator
-            rn, rd = math.isqrt(n), math.isqrt(d)
-            if rn * rn == n and rd * rd == d:
-                return const(Fraction(rn, rd))
+            return sqrt_const(q)
     # sqrt(x*x) is NOT simplified (|x|)
     return T("sqrt", (a,), "R")
 
